@@ -157,6 +157,52 @@ theorem row_injective_values (fs : List (FTy × SortOptions)) (r1 r2 : List FVal
   rw [h, e2] at e1
   exact (Option.some.inj e1).symm
 
+open ArrowModel.Generated.C11 in
+/-- **The interval encoders are, as written, products of signed encodings.**  The
+translator found `IntervalDayTime::encode` / `decode` and `IntervalMonthDayNano::encode` in
+the shape "copy every component's own signed `encode()` into consecutive slices" (an edit such
+as `to_be_bytes()` loses the item and this `decide` fails), with contiguous slices of the
+component widths 4+4 and 4+4+8. -/
+theorem interval_layout_as_written :
+    (IVDT_LEN_lost || IVDT_DAYS_END_lost || IVDT_MS_START_lost || IVDT_DEC_DAYS_END_lost || IVMDN_LEN_lost ||
+      IVMDN_MONTHS_END_lost || IVMDN_DAYS_START_lost || IVMDN_DAYS_END_lost || IVMDN_NANOS_START_lost ||
+      SIGNED_WIDTHS_lost) = false ∧
+    IVDT_DAYS_END = IVDT_MS_START ∧ IVDT_DEC_DAYS_END = IVDT_DAYS_END ∧
+    IVMDN_MONTHS_END = IVMDN_DAYS_START ∧ IVMDN_DAYS_END = IVMDN_NANOS_START ∧
+    ivdtWidths = [4, 4] ∧ ivmdnWidths = [4, 4, 8] := by decide
+
+/-- **A product of signed encodings preserves the lexicographic signed order**
+(`IntervalDayTime`, `IntervalMonthDayNano` values, any component widths): the concatenation
+of the components' own encodings compares like the component tuples — most significant
+first, every component as a *signed* integer. -/
+theorem comps_order (ws : List Nat) (a b : List Int) (ha : admitsComps ws a = true) (hb : admitsComps ws b = true) :
+    compareBytes (encodeComps ws a) (encodeComps ws b) = lexCompare compareInt a b ∧
+    (encodeComps ws a).length = ws.sum ∧ decodeComps ws (encodeComps ws a) = a :=
+  ⟨encodeComps_cmp ws a b ha hb, encodeComps_length ws a ha, decodeComps_encode ws a ha⟩
+
+/-- **Interval fields**, as laid out by the Rust source (widths from the regenerated
+constants), under every `SortOptions`: byte order = component-wise lexicographic signed
+order, with nulls and descending handled like every fixed-width field; decode ∘ encode. -/
+theorem interval_order (o : SortOptions) (a b : FVal) :
+    ((FTy.prod [4, 4]).admits a = true → (FTy.prod [4, 4]).admits b = true →
+      compareBytes (encodeField o (.prod ivdtWidths) a) (encodeField o (.prod ivdtWidths) b)
+        = compareField o (.prod [4, 4]) a b ∧
+      decodeField o (.prod ivdtWidths) (encodeField o (.prod ivdtWidths) a) = some (a, [])) ∧
+    ((FTy.prod [4, 4, 8]).admits a = true → (FTy.prod [4, 4, 8]).admits b = true →
+      compareBytes (encodeField o (.prod ivmdnWidths) a) (encodeField o (.prod ivmdnWidths) b)
+        = compareField o (.prod [4, 4, 8]) a b ∧
+      decodeField o (.prod ivmdnWidths) (encodeField o (.prod ivmdnWidths) a) = some (a, [])) := by
+  obtain ⟨_, _, _, _, _, h1, h2⟩ := interval_layout_as_written
+  rw [h1, h2]
+  refine ⟨fun ha hb => ⟨field_order o _ a b ha hb, ?_⟩, fun ha hb => ⟨field_order o _ a b ha hb, ?_⟩⟩
+  · have := (field_roundtrip o _ a [] ha).1
+    simpa using this
+  · have := (field_roundtrip o _ a [] ha).1
+    simpa using this
+
+example : (FTy.prod [4, 4]).admits (some (.ints [0, -1500])) = true ∧
+    compareField ⟨false, false⟩ (.prod [4, 4]) (some (.ints [0, -1500])) (some (.ints [0, 2000])) = .lt := by decide
+
 /-! ### nested types
 
 `Struct`, `List` kinds, `Map`, `FixedSizeList`, `Dictionary`, `RunEndEncoded`, `Null` of any
